@@ -19,7 +19,7 @@ from pyvc.values import *
 from pyvc.values import _t
 from pyvc.engine import Contract, Loop, SeqView
 from pyvc.prop import Property, Bounded, Lemma
-from . import flags as FL, selected as SELM, dictmbx as D, session as SES, C04 as C04M
+from . import flags as FL, selected as SELM, dictmbx as D, session as SES, C04 as C04M, state as ST
 from .dictmbx import MBX, Msg, F, FLAG_RECENT
 from harness.e2e_recent import bounded_recent
 
@@ -161,7 +161,8 @@ _session = [c for c in SES.make('C17') if c.qualname.split('.')[-1] in (
 PROPERTY = Property(
     'C17', '\\Recent is announced to exactly one session and never stored',
     contracts=[FL.perm_init, FL.sess_update, FL.sess_get, FL.sess_add_recent, SELM.any_selected, D.message_copy,
-               append, claim_recent] + _session, registry=REG,
+               append, claim_recent, ST.do_select] + _session,
+    registry=dict(list(ST.REG.items()) + list(REG.items())),
     lemmas=[Lemma('C17/lemma/delivery_keeps_recent_exactly_once', lemma_delivery),
             Lemma('C17/lemma/claim_keeps_recent_exactly_once', lemma_claim),
             Lemma('C17/lemma/deselect_keeps_recent_exactly_once', lemma_deselect)],
